@@ -30,6 +30,7 @@ import (
 	"sort"
 	"strings"
 	"sync"
+	"sync/atomic"
 	"time"
 
 	"github.com/zeromicro/go-zero/core/discov/internal"
@@ -104,7 +105,16 @@ type VerifEtcd struct {
 	nextLease  int64
 	revokes    int
 	puts       int
+	// planned dial failures: the next failDials NewClient calls for these endpoints fail
+	failDials   int64
+	failedDials int64
 }
+
+// VerifFailDials makes the next n attempts to connect to this cluster fail (0 = none).
+func (e *VerifEtcd) VerifFailDials(n int) { atomic.StoreInt64(&e.failDials, int64(n)) }
+
+// VerifFailedDials is the number of connection attempts that failed as planned so far.
+func (e *VerifEtcd) VerifFailedDials() int { return int(atomic.LoadInt64(&e.failedDials)) }
 
 // VerifNewEtcd creates the fake cluster that NewClient will return for endpoints.
 func VerifNewEtcd(endpoints []string) *VerifEtcd {
@@ -132,6 +142,11 @@ func VerifNewEtcd(endpoints []string) *VerifEtcd {
 			verifEtcdLock.Lock()
 			defer verifEtcdLock.Unlock()
 			if f, ok := verifEtcds[verifClusterKey(eps)]; ok {
+				if atomic.LoadInt64(&f.failDials) > 0 {
+					atomic.AddInt64(&f.failDials, -1)
+					atomic.AddInt64(&f.failedDials, 1)
+					return nil, fmt.Errorf("c13 fake etcd: %v unreachable (planned dial failure)", eps)
+				}
 				return &verifClient{e: f}, nil
 			}
 			return nil, fmt.Errorf("c13 fake etcd: no cluster for %v", eps)
